@@ -22,6 +22,11 @@ class PeerRefused(Exception):
     pass
 
 
+class PeerLostResponse(PeerRefused):
+    """The server received (and processed) the request; the connection went
+    away before its answer."""
+
+
 class PeerBadStatus(PeerRefused):
     """The server answered the WebSocket handshake with an HTTP status other
     than 101."""
@@ -389,6 +394,10 @@ class FakeAioSession:
             else:
                 r = await self.peer.ahttp(method, url, headers or {}, data,
                                           tot)
+        except PeerLostResponse:
+            # what aiohttp reports when the server closes the connection
+            # instead of answering
+            raise aiohttp.ServerDisconnectedError()
         except PeerRefused as e:
             raise aiohttp.ClientConnectionError(str(e))
         return AResp(r)
@@ -620,7 +629,8 @@ class ScriptedServer:
                 'nonopen' | 'ok'                    (default 'ok')
       upgrades: list advertised in OPEN (default ['websocket'])
       pi, pt:   heartbeat settings advertised (seconds)
-      post:     'ok' | 'fail-status' | 'refuse' | ('fail-after', n)
+      post:     'ok' | 'fail-status' | 'refuse' | ('fail-after', n) |
+                'lost-response' (processed, the answer never arrives)
       post_delay: virtual seconds a POST takes before it is answered
       limit:    packets per POST body the server accepts (default 16, like
                 the package's own server); a longer body is answered 200
@@ -703,6 +713,9 @@ class ScriptedServer:
                 self.posts_dropped.append({'body': text, 't': self.now()})
                 return Resp(200, 'ok')
             self.posts.append({'body': text, 't': self.now()})
+            if p == 'lost-response':
+                # processed, but the client never sees the answer
+                raise PeerLostResponse('connection lost after the request')
             if '1' in pieces and not self.session_closed:
                 # a CLOSE packet ends the session on a conformant server:
                 # the pending poll is released and later ones are refused
